@@ -180,7 +180,7 @@ func (k *call) gen() *ot.Gen { return ot.NewGen("op", k.t.Name, k.row.Method, k.
 // reference: brand-new receiver, distinct operand copies, fresh zeroed output (at one level less for
 // the smaller-level output history; a distinct copy of the aliased operand for accumulators).
 func (k *call) reference(pat ot.Pattern, sh ot.Shape) *obs {
-	key := fmt.Sprint(pat.Rep, "|", pat.Same, "|", sh == ot.ShapeSmallerLevel, "|", k.row.Out != nil && k.row.Out.Accumulates && pat.OutIs >= 0, pat.OutIs)
+	key := fmt.Sprint(pat.Rep, "|", pat.Same, "|", sh == ot.ShapeSmallerLevel, sh == ot.ShapeSmallerDegree, "|", k.row.Out != nil && k.row.Out.Accumulates && pat.OutIs >= 0, pat.OutIs)
 	if o, ok := k.refs[key]; ok {
 		return o
 	}
@@ -203,6 +203,8 @@ func (k *call) reference(pat ot.Pattern, sh ot.Shape) *obs {
 			out = k.kind.Make(e, k.gen())[pat.OutIs] // accumulator = a distinct copy of that operand
 		case sh == ot.ShapeSmallerLevel:
 			out = row.Out.New(e, in, 0, -1)
+		case sh == ot.ShapeSmallerDegree:
+			out = row.Out.New(e, in, -1, 0)
 		default:
 			out = row.Out.New(e, in, 0, 0)
 		}
@@ -351,7 +353,7 @@ func (d dev) names() []string {
 }
 
 // weaker enumerates the deviation sets strictly contained in d, smallest first.
-func (d dev) weaker(pats []ot.Pattern) []dev {
+func (d dev) weaker(pats []ot.Pattern, allowed []ot.Shape) []dev {
 	fresh := pats[0]
 	type opt struct {
 		pats []ot.Pattern
@@ -370,7 +372,13 @@ func (d dev) weaker(pats []ot.Pattern) []dev {
 		o.pats = append(o.pats, d.pat)
 	}
 	if d.sh != ot.ShapeExact {
-		o.shs = append(o.shs, d.sh.Weaker()...)
+		for _, w := range d.sh.Weaker() { // only output histories the row admits (an accumulator's words are an input)
+			for _, a := range allowed {
+				if a == w {
+					o.shs = append(o.shs, w)
+				}
+			}
+		}
 		o.shs = append(o.shs, d.sh)
 	}
 	if d.h.name != "new" {
@@ -446,7 +454,7 @@ func methodScenario(envName string, t *ot.Target, ri int, tier string) engine.Sc
 		pats := ot.Patterns(row, proto, protoOut, kind.Names)
 		pat := pats[c.Choose(len(pats), "alias")]
 		shapes := []ot.Shape{ot.ShapeExact}
-		if row.Out != nil && !row.Out.Accumulates && pat.OutIs < 0 {
+		if row.Out != nil && pat.OutIs < 0 && !kind.Light { // (accumulators only list the histories that keep their content: shrunk-degree)
 			shapes = append(shapes, row.Out.Shapes...)
 		}
 		sh := shapes[c.Choose(len(shapes), "outshape")]
@@ -456,7 +464,7 @@ func methodScenario(envName string, t *ot.Target, ri int, tier string) engine.Sc
 		if sh == ot.ShapeExact {
 			hists = histsPlain
 		}
-		if pat.Rep != "" {
+		if pat.Rep != "" || kind.Light {
 			hists = hists[:3] // aliasing through another representation: new receiver and the two residue fills only
 		}
 		h := hists[c.Choose(len(hists), "history")]
@@ -538,7 +546,7 @@ func methodScenario(envName string, t *ot.Target, ri int, tier string) engine.Sc
 			return
 		}
 		// attribute every failing aspect to the smallest deviation set that reproduces it
-		weaker := d.weaker(pats)
+		weaker := d.weaker(pats, shapes)
 		cache := map[int][]string{}
 		for _, f := range fails {
 			blame := d
